@@ -420,6 +420,10 @@ func (r *RemoteList) CopyBlockedRemotes() []netip.AddrPort {
 // RefreshFromHandshake locks and updates the RemoteList to account for data learned upon a completed handshake
 func (r *RemoteList) RefreshFromHandshake(vpnAddrs []netip.Addr) {
 	r.Lock()
+	if len(r.badRemotes) > 0 {
+		// The addresses we had been hiding are candidates again, the deduplicated list has to be rebuilt to show them
+		r.shouldRebuild = true
+	}
 	r.badRemotes = nil
 	r.vpnAddrs = make([]netip.Addr, len(vpnAddrs))
 	copy(r.vpnAddrs, vpnAddrs)
@@ -429,6 +433,9 @@ func (r *RemoteList) RefreshFromHandshake(vpnAddrs []netip.Addr) {
 // ResetBlockedRemotes locks and clears the blocked remotes list
 func (r *RemoteList) ResetBlockedRemotes() {
 	r.Lock()
+	if len(r.badRemotes) > 0 {
+		r.shouldRebuild = true
+	}
 	r.badRemotes = nil
 	r.Unlock()
 }
